@@ -349,6 +349,14 @@ fn damage_sure(src: &mut Src, case: &Case) -> Option<(String, &'static str, Scop
                 &text[first.end..second.end],
                 &text[second.end..]
             );
+            // second form (drawn last): two ids that are EMPTY after normalisation
+            if src.ratio(1, 4) {
+                if let Some(s) = pick_span(src, spans, |s| s.kind == ItemKind::ElementEnd && s.end - s.start > 2) {
+                    let a = ["", " ", "   "][src.choice(3)];
+                    let b = ["", " ", "  "][src.choice(3)];
+                    return Some((ins(s.start, &format!("<zz2 xml:id=\"{}\"/><zz2 xml:id=\"{}\"/>", a, b)), "duplicate_empty_xml_id", Scope::Both));
+                }
+            }
             Some((t, "duplicate_xml_id", Scope::Both))
         }
     }
